@@ -127,6 +127,8 @@ let RG = 0..6;
 fn position(needle: str) -> int { let i = 0; for c in "abcdef" { if c == needle { return i; } i += 1; } 0 - 1 }
 fn below(n: int) -> int { let k = 0; for i in RG { if i >= n { return k; } k += 1; } k }
 fn fresh(k: str, n: int) -> int { let l: [int] = []; l.push(n); let o = new { ? }; o.set(k, n); let ob = new { a: 0, l: [1] }; ob.a += n; ob.l.push(n); l.len() * 1000 + o.keys().len() * 100 + ob.l.len() * 10 + ob.a }
+fn lam_try(x: int) -> int { try { let f = fn() -> int { 1 }; for i in 0..3 { if i + x > 1 { return x + f(); } } throw("neg"); } catch e { return 0 - 1; } }
+fn after_lam_try(x: int) -> int { let r = lam_try(x); try { checked(x * 20); r += 1000; } catch e { r += 100; } r }
 fn early(x: int) -> int { let y = 100 + if x > 0 { return x; } else { 1 }; y }
 fn nested_call(a: int, b: int) -> int { sub(b, a) * 2 + enc3(a, b, 0) }
 fn fact(n: int) -> int { if n <= 1 { 1 } else { n * fact(n - 1) } }
@@ -299,6 +301,10 @@ FUNCS = {
     # again (the literal lives in the compiled program, the range in the globals — both survive the call)
     "position": (["letter"], "int", lambda a, g: ok(I("abcdef".find(a[0][1]))), ()),
     "below": (["dig"], "int", lambda a, g: ok(I(min(a[0][1], 6))), ()),
+    # a function literal inside a try block, followed by a `return` out of that block: the handler is uninstalled on the
+    # way out, so a later throw of the CALLER is caught by the caller's own handler
+    "lam_try": (["dig"], "int", lambda a, g: ok(I(a[0][1] + 1)) if a[0][1] >= 0 else ok(I(-1)), ()),
+    "after_lam_try": (["dig"], "int", lambda a, g: ok(I(a[0][1] + 1 + (100 if a[0][1] >= 1 else 1000))), ()),
     "fresh": (["str", "dig"], "int", lambda a, g: ok(I(1000 + 100 + 20 + a[1][1])), ()),
     "start": ([], "int", _start, ()),
     "get_done": ([], "int", lambda a, g: ok(g["done"]), ()),
